@@ -38,6 +38,12 @@ theorem cpp_suffixes_escape :
     (∀ w ∈ reserved_cpp, (w ++ "_Type") ∉ reserved_cpp) := by
   decide +kernel
 
+theorem cpp_type_suffix_escapes : ∀ w ∈ reserved_cpp_types, (w ++ "_Type") ∉ reserved_cpp_types := by decide +kernel
+
+/-- the names the generated C++ declares itself next to the model's types are escaped as type names (the table is regenerated
+    from `reservedNames` ∪ `reservedTypeNames`) -/
+theorem cpp_types_table_covers : (∀ w ∈ reserved_cpp, w ∈ reserved_cpp_types) ∧ "Version" ∈ reserved_cpp_types := by decide +kernel
+
 theorem python_suffix_escapes : ∀ w ∈ reserved_python, (w ++ "_") ∉ reserved_python := by decide +kernel
 
 theorem matlab_suffix_escapes : ∀ w ∈ reserved_matlab, (w ++ "_") ∉ reserved_matlab := by decide +kernel
@@ -49,8 +55,17 @@ theorem tables_cover_the_languages :
     (∀ w ∈ ["end", "function", "classdef", "if", "for", "while", "switch", "case", "otherwise", "return"], w ∈ reserved_matlab) := by
   decide +kernel
 
+/-- names the generated code itself binds where a member of the model would be bound: the modules the generated Python imports
+    and the `self` of its methods; the parameter `other` of the generated C++ comparison operators -/
+theorem tables_cover_generated_code_names :
+    (∀ w ∈ ["self", "yardl", "np", "npt", "typing", "datetime", "enum", "types"], w ∈ reserved_python) ∧ "other" ∈ reserved_cpp := by
+  decide +kernel
+
 theorem cpp_field_never_reserved (snake : String) : ident reserved_cpp "_field" snake ∉ reserved_cpp :=
   derived_identifier_never_reserved _ _ _ cpp_suffixes_escape.1
+
+theorem cpp_type_never_reserved (name : String) : ident reserved_cpp_types "_Type" name ∉ reserved_cpp_types :=
+  derived_identifier_never_reserved _ _ _ cpp_type_suffix_escapes
 
 theorem python_member_never_reserved (cased : String) : ident reserved_python "_" cased ∉ reserved_python :=
   derived_identifier_never_reserved _ _ _ python_suffix_escapes
